@@ -175,6 +175,29 @@ func init() {
 			}
 			return s
 		},
+		twigPkg + "symStringIn": func(e *Engine, a []Value) Value {
+			n := e.concInt(a[0])
+			set := a[1].(Str).S
+			if e.vector != nil {
+				b := make([]byte, n)
+				for i := range b {
+					b[i] = byte(e.nextVec())
+					if strings.IndexByte(set, b[i]) < 0 {
+						panic(pathEnd{"infeasible", "byte outside alphabet"})
+					}
+				}
+				return Str{S: string(b)}
+			}
+			if n == 0 {
+				return Str{}
+			}
+			s := Str{S: strings.Repeat("?", n), Sym: make([]*Term, n)}
+			for i := range s.Sym {
+				s.Sym[i] = e.newSym(8, "b")
+				e.assume(inSet(s.Sym[i], set))
+			}
+			return s
+		},
 		twigPkg + "symChoice": func(e *Engine, a []Value) Value {
 			n := e.concInt(a[0])
 			if e.vector != nil {
